@@ -39,8 +39,8 @@ type insertPlan struct {
 
 type insertQuery struct {
 	id, body, secret, quotaKey, initialUser string
-	settings                               []ch.Setting
-	params                                 []proto.Parameter
+	settings                                []ch.Setting
+	params                                  []proto.Parameter
 }
 
 type insertRun struct {
